@@ -67,8 +67,9 @@ def gen_workflow(rng: random.Random, opts=None):
             'opt_fail': rng.random() < opts.get('p_optfail', 0.3),
             'custom': custom,
             'opt_custom': [c for c in custom if rng.random() < 0.4],
-            'exec_retries': rng.choice([0, 0, 0, 1, 2]) if opts.get('retries', True) else 0,
-            'sub_retries': rng.choice([0, 0, 0, 1]) if opts.get('retries', True) else 0,
+            # (C03Q, additive: options exec_retry_choices / sub_retry_choices = the numbers to draw from; same draws)
+            'exec_retries': rng.choice(opts.get('exec_retry_choices') or [0, 0, 0, 1, 2]) if opts.get('retries', True) else 0,
+            'sub_retries': rng.choice(opts.get('sub_retry_choices') or [0, 0, 0, 1]) if opts.get('retries', True) else 0,
         }
     # C46 (additive): option icp_choices = other initial points (e.g. 8, so that the cycle points cross 9 -> 10
     # and compare differently as strings and as numbers); default: the old list, same single draw
@@ -115,6 +116,11 @@ def gen_workflow(rng: random.Random, opts=None):
                         # 'foo[+P1] => bar' from any task (also bar itself) in any section, one-off ones included
                         # (at the final cycle point they refer beyond the final point)
                         cands.append({'t': t, 'out': out, 'off': rng.choice(['+P1', '+P1', '+P2'])})
+                    if opts.get('p_future_icp') and rng.random() < opts['p_future_icp']:
+                        # C04F (additive, only with option p_future_icp; no draw otherwise): future triggers written
+                        # relative to the INITIAL cycle point, 'foo[^+P2] => bar' (for bar before cycle icp+2 a future
+                        # prerequisite offset that shrinks with the cycle), in any section, mixed with the others
+                        cands.append({'t': t, 'out': out, 'off': rng.choice(['^+P1', '^+P2', '^+P2', '^+P3'])})
             if not cands or rng.random() < 0.15:
                 lines.append(rhs_text(rhs))      # lone node
                 used.add(rhs)
@@ -135,6 +141,16 @@ def gen_workflow(rng: random.Random, opts=None):
                     # a task used in an offset trigger must itself be on a sequence
                     lines.append(rhs_text(pk['t']))
         sections[rec] = lines
+    if opts.get('p_future_icp'):
+        # C04F (additive): the parent of an ICP-relative future trigger must exist at that later cycle: it is put on P1
+        import re as _re
+        for par in sorted({m for lines in sections.values() for ln in lines
+                           for m in _re.findall(r'(?<![\w:])([a-g])\[\^\+P\d\]', ln)}):
+            if 'P1' not in sections:
+                sections['P1'] = []
+                recs = sorted(set(recs) | {'P1'})
+            if rhs_text(par) not in sections['P1']:
+                sections['P1'].append(rhs_text(par))
     # every task mentioned must be placed on some sequence: add lone nodes for trigger-only tasks
     first = recs[0]
     mentioned = set()
@@ -156,6 +172,18 @@ def gen_workflow(rng: random.Random, opts=None):
             sections[r].append(f'm => {kid}' if with_kids else 'm')
         if fcp - icp < 4:
             fcp = icp + rng.randint(4, 6)
+    if opts.get('p_boundrec') and rng.random() < opts['p_boundrec']:
+        # C01 (additive, no random draw unless the option is set): a task `rb` on a long recurrence (P1, trigger
+        # `ra => rb`) and also on a bounded stepped recurrence (Rn/<icp or icp+1>/Pk, trigger `rc => rb`): beyond the
+        # bounds of the short recurrence `rb` must not depend on `rc`
+        short = f"R{rng.choice([2, 2, 3])}/{rng.choice([icp, icp, icp + 1])}/P{rng.choice([1, 1, 2])}"
+        for r, line in (('P1', 'ra => rb'), (short, 'rc => rb')):
+            if r not in sections:
+                sections[r] = []
+                recs = sorted(set(recs) | {r})
+            sections[r].append(line)
+        if fcp - icp < 3:
+            fcp = icp + rng.randint(3, 5)
     graph_txt = ''
     for rec in recs:
         body = '\n'.join('            ' + ln for ln in sections[rec])
@@ -244,7 +272,7 @@ def gen_policy(rng, wf, kind='complete', opts=None):
         oc = {'custom': [c + c for c in p['custom']], 'p_custom': 1.0, 'p_fail': 0.0,
               'exec_retries': p['exec_retries'], 'sub_retries': p['sub_retries'],
               'p_retry_fail': 0.6}
-        if kind in ('complete', 'cmd', 'cmdtrigc', 'set', 'cmdrmc', 'cmdrmr', 'cmdrl', 'qc', 'cmdqc', 'cmdqtc', 'crash', 'cmdcrash', 'fut'):   # ('fut': C04F/C07F, 'cmdtrigc': C28, 'set': C29/C08S, 'cmdrm*': C30, 'cmdrl': C27, additive)
+        if kind in ('complete', 'cmd', 'cmdtrigc', 'set', 'cmdrmc', 'cmdrmr', 'cmdrmf', 'cmdrl', 'qc', 'cmdqc', 'cmdqtc', 'crash', 'cmdcrash', 'fut'):   # ('fut': C04F/C07F, 'cmdtrigc': C28, 'set': C29/C08S, 'cmdrm*': C30, 'cmdrl': C27, additive)
             if p['opt_fail']:
                 oc['p_fail'] = 0.4
             # optional custom outputs may be skipped; required ones are always produced
@@ -310,7 +338,19 @@ def gen_policy(rng, wf, kind='complete', opts=None):
                        'stop_point', 'stop_clean', 'stop_now', 'pause', 'resume']
         pol['p_cmd'] = {0.4: 0.1, 0.6: 0.16, 0.8: 0.22}.get(pol.get('p_msg'), 0.16)
         pol['p_hold_queued'] = 0.6
-    if kind in ('cmdqt', 'cmdqtc'):
+    if kind in ('qr', 'cmdqtr'):
+        # C03Q (additive; new kinds, applied after all draws): retry delays that are not over at once - the runner keeps
+        # a virtual clock for the retry timers (policy vclock) that only the op 'tick' advances (p_tick: chance of a
+        # tick per op while some task waits for its retry delay); every task may fail for good as well, so that
+        # finished-but-incomplete tasks share the pool with tasks waiting for a retry.  'cmdqtr': with manual
+        # triggers, and the prepared jobs go through the real submit_livelike_task_jobs (policy live_submit)
+        for oc in outcomes.values():
+            oc['p_fail'] = max(oc['p_fail'], 0.3)
+            oc['p_retry_fail'] = 0.75
+        pol['vclock'] = True
+        pol['p_tick'] = 0.2
+        pol['live_submit'] = True
+    if kind in ('cmdqt', 'cmdqtc', 'cmdqtr'):
         # C05S (additive; new kinds, applied after all draws): manual triggers against the queue limits - `cylc trigger`
         # of several pooled members of one limited queue at once, of queued tasks, of members of a free queue while
         # another queue is full (policy command 'trigger_q') - mixed with holds / releases and pause / resume (so that
@@ -324,8 +364,18 @@ def gen_policy(rng, wf, kind='complete', opts=None):
         # C28 (additive; applied after all draws): group triggers mixed with holds / pause; no restarts;
         # the task_states / task_outputs tables are part of the observation ('cmdtrigc': complete outcomes)
         pol['cmds'] = ['trigger', 'trigger', 'trigger', 'trigger', 'hold', 'release', 'set_hold_point',
-                       'release_hold_point', 'pause', 'resume', 'trigger', 'trigger']
+                       'release_hold_point', 'pause', 'resume', 'trigger', 'trigger', 'hold_member', 'hold_member']
+        pol['p_trig_held'] = 0.4      # groups built around a member held while outside the pool
         pol['p_cmd'] = 0.1
+        pol['restarts'] = 0
+        pol['obs_db'] = True
+    if kind == 'cmdrmf':
+        # C30 (additive; applied after all draws): multi-flow HISTORIES -- finished tasks are run again in a new flow
+        # ('retrig_done'), so that their children are spawned again while the rows of the earlier flow are in the DB;
+        # then a parent that satisfied a waiting child is removed ('remove_parent'); pauses keep children waiting
+        pol['cmds'] = ['retrig_done', 'retrig_done', 'remove_parent', 'remove_parent', 'pause', 'retrig_done',
+                       'remove_parent', 'resume', 'remove', 'hold', 'release', 'remove_parent', 'retrig_done', 'pause']
+        pol['p_cmd'] = 0.25
         pol['restarts'] = 0
         pol['obs_db'] = True
     if kind in ('cmdrm', 'cmdrmc', 'cmdrmr'):
@@ -358,7 +408,8 @@ def gen_policy(rng, wf, kind='complete', opts=None):
         pol['cmds'] = (opts or {}).get('reload_cmds') or [
             'reload', 'reload', 'reload', 'reload', 'hold', 'release', 'reload', 'set_hold_point',
             'release_hold_point', 'reload', 'pause', 'resume', 'reload', 'stop_point', 'stop_clean', 'stop_now',
-            'stop_point', 'pause', 'stop_task']
+            'stop_point', 'pause', 'stop_task',
+            'rl_remove', 'rl_set_custom', 'rl_remove', 'rl_set_custom', 'rl_remove']
         pol['p_cmd'] = (opts or {}).get('p_reload') or {0.4: 0.12, 0.6: 0.2, 0.8: 0.3}.get(pol.get('p_msg'), 0.2)
         pol['inst_off'] = True          # instance graph also for off-sequence points (see runner.extract_graph)
         # a reload right behind another command (same command batch, no main loop in between), e.g. pause /
@@ -374,7 +425,7 @@ def gen_policy(rng, wf, kind='complete', opts=None):
         lo, hi = (opts or {}).get('crash_loops') or (1, 16)
         n = rng.choice([1, 2, 2, 3, 4])
         loops = sorted(rng.sample(range(lo, hi + 1), min(n, hi - lo + 1)))
-        pol['crash_plan'] = [[L, rng.choice([-1, 0, 0, 0, 1, 1, 1, 2, 2, 3]), rng.choice([None, None, 0, 1, 2, 5])]
+        pol['crash_plan'] = [[L, rng.choice([-1, 0, 0, 0, 1, 1, 1, 2, 2, 3]), rng.choice([None, None, 0, 1, 2, 3, 4, 5, 6, 8])]
                              for L in loops]
         if kind in ('crash', 'cmdcrash'):
             pol['p_noise'] = 0.0        # complete outcomes, no duplicate / stale / out-of-order messages (as 'complete')
@@ -407,6 +458,11 @@ def gen_case(seed: int, kind='complete', opts=None):
         import gendt
         return gendt.gen_case(seed, kind, opts)
     rng = random.Random(seed)
+    if kind in ('qr', 'cmdqtr'):
+        # C03Q (additive): queues with limits 1-3, most tasks with execution / submission retries; about half of the
+        # retry delays are PT1H instead of PT0S (own random stream below)
+        opts = dict({'exec_retry_choices': [0, 1, 1, 2], 'sub_retry_choices': [0, 0, 1], 'p_optfail': 0.15},
+                    **(opts or {}), queues=True)
     if kind in ('qc', 'qa', 'cmdq', 'cmdqc', 'cmdqt', 'cmdqtc'):
         # C05S (additive): the queue kinds generate workflows with limited internal queues
         # ('qc' complete outcomes, 'qa' failures / noise, 'cmdq' / 'cmdqc' with holds and stop + restart,
@@ -419,10 +475,16 @@ def gen_case(seed: int, kind='complete', opts=None):
                      'p_default_limit': 0.5}, **(opts or {}), queues=True)
     if kind in ('fut', 'futany', 'futcmd'):
         # C04F / C07F (additive): the future-trigger kinds generate workflows with '[+P1]' / '[+P2]' triggers
-        opts = dict({'p_future': 0.3}, **(opts or {}))
+        opts = dict({'p_future': 0.3, 'p_future_icp': 0.12}, **(opts or {}))
+    if kind.startswith('set') and (opts or {}).get('suic'):
+        # C29 (additive, option 'suic'): more suicide triggers (`a:fail? => !b` next to `... a ... => b`), and the
+        # runner aims `cylc set --pre=all` at instances that have suicide prerequisites
+        opts = dict({'p_suicide': 0.6}, **opts)
     wf = gen_workflow(rng, opts)
     case = {'id': f'{kind}{seed}', 'flow': wf['flow'], 'seed': seed, 'opts': wf['opts'],
             'policy': gen_policy(rng, wf, kind, opts), 'ops': None, 'kind': kind}
+    if kind.startswith('set') and (opts or {}).get('suic'):
+        case['policy']['suic'] = True
     if kind.startswith('set') and (opts or {}).get('xtrig'):
         # C29 (additive, option 'xtrig', own random stream so that nothing else of the case changes): long retry
         # delays - a task that fails (or fails to submit) with a retry left keeps waiting on its retry xtrigger
@@ -436,6 +498,16 @@ def gen_case(seed: int, kind='complete', opts=None):
             lines.append(ln)
         case['flow'] = '\n'.join(lines)
         case['policy']['xtrig'] = True
+    if kind in ('qr', 'cmdqtr'):
+        # C03Q (additive, own random stream): non-zero retry delays
+        xr = random.Random(f'c03q-slow/{seed}')
+        p_slow = (opts or {}).get('p_slow_retry', 0.55)
+        lines = []
+        for ln in case['flow'].split('\n'):
+            if ('execution retry delays' in ln or 'submission retry delays' in ln) and xr.random() < p_slow:
+                ln = ln.replace('*PT0S', '*PT1H')
+            lines.append(ln)
+        case['flow'] = '\n'.join(lines)
     if kind in ('cmdrl', 'cmdrla'):
         # C27 (additive, drawn after everything else): the definitions the run is reloaded with
         import genreload
